@@ -120,7 +120,7 @@ Inductive pc : Type :=
 
 Inductive tkind : Type :=
 | KStage (nsrc : nat) (out : nat)        (* nsrc: number of chunks when the stage has no input *)
-| KSaver
+| KSaver (rechunk : bool)              (* rechunk: chunks are cached and saved by the final flush *)
 | KDiscard
 | KDivider (outs : list (nat * bool))    (* (mailbox, flow_freely) *)
 | KMain (relay : bool).
@@ -234,7 +234,7 @@ Definition first_out (t : thread) (p : pc) : pc := if n_outs t =? 0 then PDone e
 (* MailboxKilled(c) raised by the read region of an input *)
 Definition on_input_killed (t : thread) (c : nat) : thread :=
   match t_kind t with
-  | KSaver => set_pc (set_saver t true true) PDone               (* except MailboxKilled: self.close() *)
+  | KSaver _ => set_pc (set_saver t true true) PDone             (* except MailboxKilled: self.close() *)
   | KDiscard => set_pc t (PDead (EKilled c))
   | KMain _ => set_pc t (enter_killall c)                          (* exc = reason[1]; kill the mailboxes *)
   | KStage _ _ | KDivider _ => set_pc t (first_out t (PKillOut 0 (EKilled c)))
@@ -284,8 +284,8 @@ Definition source_produce (t : thread) (nsrc : nat) : thread :=
 (* saver / discarder / consumer / divider: one data chunk arrived; true = keep iterating *)
 Definition sink_data (t : thread) (v : Z) : thread * bool :=
   match t_kind t with
-  | KSaver =>
-      match fault_at (t_cnt t) with
+  | KSaver rechunk =>
+      match (if rechunk then None else fault_at (t_cnt t)) with
       | Some c => (set_pc (set_got t (Some c)) (PKillIn (EOrig c)), false)   (* got_exception = e; source.throw(e) *)
       | None => (add_row t v, true)
       end
@@ -304,7 +304,7 @@ Definition sink_data (t : thread) (v : Z) : thread * bool :=
 (* ... the input ended *)
 Definition sink_stop (t : thread) : thread :=
   match t_kind t with
-  | KSaver =>
+  | KSaver _ =>
       match fault_at (t_cnt t) with
       | Some c => set_pc (set_saver (set_got t (Some c)) true true) (PDead (EOrig c))
       | None => set_pc (set_saver t true (t_excrec t)) PDone
@@ -450,7 +450,7 @@ Definition killin_region (st : nstate) (t : thread) (e : exn) : nstate :=
       end
     else
       match t_kind t with
-      | KSaver => set_pc (set_saver t true true) (PDead e)     (* finally: close() records the exception *)
+      | KSaver _ => set_pc (set_saver t true true) (PDead e)   (* finally: close() records the exception *)
       | KMain _ => set_pc t (enter_killall (exn_code e))
       | KDivider _ => set_pc t (first_out t (PKillOut 0 e))
       | _ => set_pc t (PDead e)
